@@ -61,6 +61,12 @@ def macro_text(prod, m):
     return "${%s_DIR}" % prod["name"].upper() if m == "${NAME_DIR}" else m
 
 
+def interp1(env, s):
+    """One pass of ${K} -> env[K] where defined (what a reference that came in with a variable's value gets)."""
+    import re
+    return re.sub(r"\$\{([^}]*)\}", lambda m: env.get(m.group(1), m.group(0)), s)
+
+
 def gen_value(rng, delim, env, prod=None):
     """Returns (text, spec) where spec describes what the text denotes:
     ('elems', [..]) | ('skip',) | ('error',) | ('macro', m, tail) (resolved against the product at run time);
@@ -90,7 +96,7 @@ def gen_value(rng, delim, env, prod=None):
         form = rng.choice(["${%s}", "$?{%s}", "${%s-dflt}"]) % key
         tail = rng.choice(["/bin", "", "/lib"])
         if key in env:
-            den = ("elems", [env[key] + tail])
+            den = ("elems", [interp1(env, env[key] + tail)])
         elif "-dflt" in form:
             den = ("elems", ["dflt" + tail])
         elif form.startswith("$?"):
@@ -101,7 +107,7 @@ def gen_value(rng, delim, env, prod=None):
     elif kind < 0.80:      # two references
         text = "${FOO}/a" + "/" + "${BAR}"
         if "FOO" in env and "BAR" in env:
-            den = ("elems", [env["FOO"] + "/a/" + env["BAR"]])
+            den = ("elems", [interp1(env, env["FOO"] + "/a/" + env["BAR"])])
         else:
             den = ("error",)
         if any(delim in e for e in (den[1] if den[0] == "elems" else [])):
@@ -130,6 +136,8 @@ def gen_old(rng, delim, value_elems):
     if r < 0.18:
         return ""
     pool = [a for a in ATOMS if delim not in a] + ["", ""]
+    if rng.random() < 0.15 and delim not in "${}/":        # elements that hold a reference as text: they stay as they are
+        pool += ["${FOO}/o", "${NOPE}", "/foo/o"]
     if value_elems and rng.random() < 0.4:
         pool += list(value_elems) * 2
     return delim.join(rng.choice(pool) for _ in range(rng.randint(1, 6)))
@@ -139,7 +147,8 @@ def gen_case(rng):
     delim = rng.choice(DELIMS)
     env = {}
     if rng.random() < 0.7:
-        env["FOO"] = "/foo" if rng.random() < 0.8 else ""      # defined-but-empty is still defined
+        r = rng.random()
+        env["FOO"] = "/foo" if r < 0.7 else ("" if r < 0.85 else "${BAR}/n")   # defined-but-empty is still defined; nested reference
     if rng.random() < 0.4:
         env["BAR"] = "bar" if rng.random() < 0.8 else ""
     prod = gen_product(rng) if rng.random() < 0.35 else None
